@@ -209,7 +209,7 @@ func RunProperty(o Options) int {
 		if pc.RaceDetect {
 			params["RACE"] = 1
 		}
-		to := 600
+		to := 1500
 		if v, ok := u.Timeout[o.Tier]; ok {
 			to = v
 		} else if o.Tier == "thorough" {
